@@ -171,6 +171,7 @@ func init() {
 			{Rule: "EFF-5", Filter: funcHas("Verifier")},
 			{Rule: "ERR-1", Filter: funcHas("Verifier", "verify")},
 			{Rule: "TAB-4", Floors: map[string]int{"verdict": 2, "sets": 2}},
+			{Rule: "CONC-4", Filter: and(role("access"), funcHas("erifier"))},
 			{Rule: "SIB-4", Filter: funcHas("fillDirsMarkdown")},
 		},
 		Decides:    "verify never reaches a filesystem-mutating call; names are validated and paths assembled before verifying; looked-up paths are Join(targetDir, node path) like the mkdirer's; walk errors are returned.",
